@@ -587,7 +587,7 @@ Section Handle.
       pose proof (do_field_pres (FUEL d) s f true (match start with Some k => k | None => -1 end) n (fuel_ok f) HC ltac:(lia)) as HP.
       destruct (do_field dec (FUEL d) d s f true _ n) as [s' [l|e|]]; cbn [fst] in *; apply (Pres_Inv _ _ HP HI).
     - assert (Hb : exists s1 ob, match w with WSet => (s, Val 0) | WCur => get_iopos (FUEL d) d s f
-                                 | WEnd => (s, Val (eof_field (FUEL d) d f)) end = (s1, ob) /\ InvH s1).
+                                 | WEnd => (s, Val (Z.max 0 (eof_field (FUEL d) d f))) end = (s1, ob) /\ InvH s1).
       { destruct w; try (eexists; eexists; split; [reflexivity|exact HI]).
         destruct (get_iopos_pres (FUEL d) s f) as [HP _]. destruct (get_iopos (FUEL d) d s f) as [s1 ob].
         exists s1, ob. split; [reflexivity|apply (Pres_Inv _ _ HP HI)]. }
@@ -726,6 +726,10 @@ Section Handle.
       assert (He : eof_field (FUEL d) d f = nsamp rd + rd_foff rd).
       { destruct FUEL_S2 as [k ->]. cbn [eof_field]. rewrite Ef. reflexivity. }
       rewrite He.
+      assert (Hns : 0 <= nsamp rd + rd_foff rd).
+      { pose proof (field_wf _ _ Ef) as Hr. pose proof (raw_wf r Hr) as Hrd. pose proof (nsamp_bounds rd Hrd) as (Hn0 & _).
+        destruct Hrd as [_ Hfo]. fold rd in Hfo. lia. }
+      rewrite Z.max_r by exact Hns.
       destruct (seek_then_tell s (off + (nsamp rd + rd_foff rd)) HI ltac:(lia)) as (s2 & -> & HI2 & Ho & Hfp).
       pose proof (tell_raw s2 HI2 Ho) as Ht. unfold step in Ht. rewrite Ht.
       exists s2. rewrite Hfp. replace (off + (nsamp rd + rd_foff rd)) with (rd_foff rd + nsamp rd + off) by ring. auto.
